@@ -498,45 +498,61 @@ def isDefault (wide : Bool) (f0 : Field) : Except Fault Bool := do
   else if f0.len ≥ 7 then matchAt f0 1 "efault"
   else pure false
 
-/-- The POSIX.1e branch of the parser loop body. -/
-def parsePosix (wide : Bool) (fs : List Field) (wantType : Nat) : Except Fault Parsed := do
-  let fields := fs.length
-  let fld0 := fieldAt fs 5
-  -- field[0] always exists (the do-while runs at least once)
-  let f0 ← match fld0 0 with | some f => pure f | none => throw Fault.null
-  let isDef ← isDefault wide f0
-  let type := if isDef then typeDefault else wantType
-  -- `field[0].start += 7` for "defaultuser", else the tag is in field[1]
-  let fld : Nat → Option Field :=
-    if isDef ∧ f0.len > 7 then
-      fun i => if i = 0 then some ⟨f0.s.drop 7, f0.len - 7⟩ else fld0 i
-    else fld0
-  let n := if isDef ∧ ¬ f0.len > 7 then 1 else 0
-  -- numeric id in field n+1 or n+3
+/-- "Check for a numeric ID in field n+1 or n+3": `isint(field[n + 1], &id)`, then
+`if (id == -1 && fields > (n + 3)) isint(field[n + 3], &id)`. -/
+def posixId (fields : Nat) (fld : Nat → Option Field) (n : Nat) : Except Fault Int := do
   let id := isintOr (← fbody (fld (n + 1))) (-1)
-  let id ← if id = -1 ∧ fields > n + 3 then (do pure (isintOr (← fbody (fld (n + 3))) id)) else pure id
+  if id = -1 ∧ fields > n + 3 then (do pure (isintOr (← fbody (fld (n + 3))) id)) else pure id
+
+/-- `case ARCHIVE_ENTRY_ACL_OTHER: case ARCHIVE_ENTRY_ACL_MASK:` and the mode check after it. -/
+def posixOtherMask (wide : Bool) (fields : Nat) (fld : Nat → Option Field) (n type tag : Nat)
+    (id : Int) : Except Fault Parsed := do
+  let f1 := fld (n + 1)
+  -- `fields == n + 2 && start < end && ismode(field[n + 1], &permset)`
+  let called := fields = n + 2 ∧ flen f1 > 0
+  let r1 ← if called then (do pure (ismode wide (← fbody f1) 0)) else pure (0, false)
+  let sol := called ∧ r1.2
+  if ¬ sol ∧ fields = n + 3 ∧ flen f1 > 0 then pure .skip else
+  -- `permset == 0 && !ismode(field[n + 2 - sol], &permset)`
+  let r2 ← if r1.1 = 0 then (do pure (ismode wide (← fbody (fld (if sol then n + 1 else n + 2))) r1.1))
+           else pure (r1.1, true)
+  if r2.2 then pure (.entry type r2.1 tag id none) else pure .skip
+
+/-- `case ARCHIVE_ENTRY_ACL_USER_OBJ: case ARCHIVE_ENTRY_ACL_GROUP_OBJ:` and the mode check after it. -/
+def posixUserGroup (wide : Bool) (fld : Nat → Option Field) (n type tag : Nat) (id : Int) :
+    Except Fault Parsed := do
+  let f1 := fld (n + 1)
+  let named := id ≠ -1 ∨ flen f1 > 0
+  let tag := if named then (if tag = tagUserObj then tagUser else tagGroup) else tag
+  let name := if named then f1 else none
+  let r2 := ismode wide (← fbody (fld (n + 2))) 0
+  if r2.2 then pure (.entry type r2.1 tag id name) else pure .skip
+
+/-- The POSIX.1e branch of the parser loop body after the "default" test:
+`fld` is `field[]` (with `field[0].start += 7` applied for "defaultuser"),
+`n` the index of the tag field, `type` the entry type. -/
+def parsePosixRest (wide : Bool) (fields : Nat) (fld : Nat → Option Field) (n type : Nat) :
+    Except Fault Parsed := do
+  let id ← posixId fields fld n
   if flen (fld n) = 0 then pure .skip else
   -- the tag field is not empty here, so its `start` is not NULL
   let fn ← match fld n with | some f => pure f | none => throw Fault.null
   let tag ← posixTag fn
-  let f1 := fld (n + 1)
-  if tag = tagOther ∨ tag = tagMask then
-    -- `fields == n + 2 && start < end && ismode(field[n + 1], &permset)`
-    let called := fields = n + 2 ∧ flen f1 > 0
-    let (p1, ok1) ← if called then (do pure (ismode wide (← fbody f1) 0)) else pure (0, false)
-    let sol := called ∧ ok1
-    if ¬ sol ∧ fields = n + 3 ∧ flen f1 > 0 then pure .skip else
-    -- `permset == 0 && !ismode(field[n + 2 - sol], &permset)`
-    let (p2, ok2) ← if p1 = 0 then (do pure (ismode wide (← fbody (fld (if sol then n + 1 else n + 2))) p1))
-                    else pure (p1, true)
-    if ok2 then pure (.entry type p2 tag id none) else pure .skip
-  else if tag = tagUserObj ∨ tag = tagGroupObj then
-    let named := id ≠ -1 ∨ flen f1 > 0
-    let tag := if named then (if tag = tagUserObj then tagUser else tagGroup) else tag
-    let name := if named then f1 else none
-    let (p2, ok2) := ismode wide (← fbody (fld (n + 2))) 0
-    if ok2 then pure (.entry type p2 tag id name) else pure .skip
+  if tag = tagOther ∨ tag = tagMask then posixOtherMask wide fields fld n type tag id
+  else if tag = tagUserObj ∨ tag = tagGroupObj then posixUserGroup wide fld n type tag id
   else pure .skip
+
+/-- The POSIX.1e branch of the parser loop body: the "default" keyword, then the rest. -/
+def parsePosix (wide : Bool) (fs : List Field) (wantType : Nat) : Except Fault Parsed := do
+  let fld0 := fieldAt fs 5
+  -- field[0] always exists (the do-while runs at least once)
+  let f0 ← match fld0 0 with | some f => pure f | none => throw Fault.null
+  if (← isDefault wide f0) then
+    if f0.len > 7 then
+      -- "defaultuser": `field[0].start += 7`
+      parsePosixRest wide fs.length (fun i => if i = 0 then some ⟨f0.s.drop 7, f0.len - 7⟩ else fld0 i) 0 typeDefault
+    else parsePosixRest wide fs.length fld0 1 typeDefault
+  else parsePosixRest wide fs.length fld0 0 wantType
 
 /-- The tag word of an NFSv4 entry (`switch (len)` with `memcmp`). -/
 def nfs4Tag (f0 : Field) : Except Fault Nat := do
@@ -596,7 +612,7 @@ looks at `*name` first); the string layer stops at a NUL. -/
 def nameOf (wide : Bool) : Option Field → Except Fault (List Ch)
   | none => .ok []
   | some f => do
-    if wide then discard (rd f.s 0)
+    let _first ← if wide then rd f.s 0 else pure 0
     pure ((← f.body).takeWhile (· ≠ 0))
 
 /-! Progress of `next_field`, needed for the termination of the two parser loops. -/
